@@ -215,7 +215,13 @@ impl ParsedFormula {
     }
 
     pub fn to_free_index(&self, ns: &NamedSymbol) -> usize {
-        self.raw2free[ns.id].unwrap_or_else(|| panic!("{} is not a free variable", ns))
+        // raw2free has one entry per element of `vars`; ids and positions differ as soon as
+        // the variable ordering names a variable that the formula does not use
+        self.vars
+            .iter()
+            .position(|v| v == ns)
+            .and_then(|pos| self.raw2free[pos])
+            .unwrap_or_else(|| panic!("{} is not a free variable", ns))
     }
 
     pub fn extract_vars(tokens: &[SymbolicBDDToken]) -> Vec<NamedSymbol> {
